@@ -1,7 +1,7 @@
 """C01 — live allocations never overlap and lie inside memory the allocator owns (DESIGN.md #C01)"""
 import subjects
 
-SPEC = dict(modules=["MemVerif.Props.C01", "MemVerif.Props.C01Stack", "MemVerif.Props.C01Ord", "MemVerif.Props.C01Heap", "MemVerif.Props.C01Coll", "MemVerif.Props.C07"], gen_cfgs=("rwdi",),
+SPEC = dict(modules=["MemVerif.Props.C01", "MemVerif.Props.C01Stack", "MemVerif.Props.C01Ord", "MemVerif.Props.C01Heap", "MemVerif.Props.C01Coll", "MemVerif.Props.C01CollArr", "MemVerif.Props.C07"], gen_cfgs=("rwdi",),
             assumptions=["proved: memory_pool over ALL THREE free lists - unordered, ordered, small node - (all histories incl. arrays, any environment, any configuration; Props/C01Ord: ordered list stays sorted with a valid cursor, find_pos finds every released pointer; small list: chunk ring sorted, cursors valid, chunk search finds every live node, checks never fire for a live node); memory_stack over growing/fixed sources (all histories of allocate/try_allocate/nested marker scopes: C01_stack_live_disjoint_inside); iteration regions (C07). "
                          "collections, memory_stack over static storage, static_allocator: correspondence + overlap/inside/content oracles (partial)",
                          "n * node_size of allocate_array(n) must not wrap (POp.Fits; counterexample C01_pool_allocArray_overflow_cex = finding D21)",
